@@ -8,6 +8,7 @@ CORE = "src/node/core.go"
 NODEF = "src/node/node.go"
 RPC = "src/node/node_rpc.go"
 PSF = "src/peers/peer_set.go"
+MEDF = "src/common/median.go"
 
 def M(id, prop, rule, *edits):
     return {"id": id, "prop": prop, "rule": rule, "edits": list(edits)}
@@ -104,6 +105,14 @@ MUTANTS = [
  M("c19-use-sm-minus-one", "C19", "C19.use", (HGF, "\treturn c >= peers.SuperMajority(), nil", "\treturn c >= peers.SuperMajority()-1, nil")),
  M("c19-mutable-peerset", "C19", "C19.use", (PSF, "func (peerSet *PeerSet) clearCache() {", "// Add appends a peer in place.\nfunc (peerSet *PeerSet) Add(p *Peer) {\n\tpeerSet.Peers = append(peerSet.Peers, p)\n\tpeerSet.ByPubKey[p.PubKeyString()] = p\n}\n\nfunc (peerSet *PeerSet) clearCache() {")),
  M("c19-with-new-peer-dup", "C19", "C19.use", (PSF, "\tif _, ok := peerSet.ByID[peer.ID()]; !ok {\n\t\tpeers = append(peers, peer)\n\t}", "\tpeers = append(peers, peer)")),
+ # ---- C18
+ M("c18-all-witnesses", "C18", "C18.prov", (HGF, "\tfor _, fw := range round.FamousWitnesses() {\n\t\tev, err := h.Store.GetEvent(fw)", "\tfor _, fw := range round.Witnesses() {\n\t\tev, err := h.Store.GetEvent(fw)")),
+ M("c18-first-not-median", "C18", "C18.rank", (MEDF, "\t\tmedian = s[l/2]\n", "\t\tmedian = s[0]\n")),
+ M("c18-no-sort", "C18", "C18.rank", (MEDF, "\tsort.Slice(s, func(i, j int) bool { return s[i] < s[j] })\n", "\t_ = sort.Slice\n")),
+ M("c18-descending-upper", "C18", "C18.rank", (MEDF, "\t\tmid := l/2 - 1\n", "\t\tmid := l / 2\n"), (MEDF, "median = (s[mid] + s[mid+1]) / 2", "median = (s[mid] + s[mid-1]) / 2 + s[l-1] - s[l-1]")),
+ M("c18-even-off-by-one", "C18", "C18.rank", (MEDF, "\t\tmid := l/2 - 1\n", "\t\tmid := (l+1)/2 - 1\n"), (MEDF, "\t\tmedian = s[l/2]\n", "\t\tmedian = s[(l+1)/2]\n")),
+ M("c18-sorts-input", "C18", "C18.rank", (MEDF, "\tsort.Slice(s, func(i, j int) bool { return s[i] < s[j] })\n", "\tsort.Slice(input, func(i, j int) bool { return input[i] < input[j] })\n\tcopy(s, input)\n")),
+ M("c18-block-ts-now", "C18", "C18.prov", ("src/hashgraph/block.go", "\t\tframe.Timestamp)\n", "\t\tframe.Timestamp+int64(len(frame.Events)))\n")),
 ]
 
 BENIGN = [
@@ -130,4 +139,7 @@ BENIGN = [
  B("c19-benign-trust-int", "C19", (PSF, "val = int(math.Ceil(float64(peerSet.Len()) / float64(3)))", "val = (peerSet.Len() + 2) / 3\n\t\t\t_ = math.Pi")),
  B("c19-benign-no-memo", "C19", (PSF, "\tif peerSet.superMajority == nil {\n\t\tval := 2*peerSet.Len()/3 + 1\n\t\tpeerSet.superMajority = &val\n\t}\n\treturn *peerSet.superMajority", "\treturn 2*peerSet.Len()/3 + 1")),
  B("c19-benign-swapped-cmp", "C19", (HGF, "\tif c >= parentRoundPeerSet.SuperMajority() {", "\tif parentRoundPeerSet.SuperMajority() <= c {")),
+
+ B("c18-benign-sort-ints", "C18", (MEDF, "\tsort.Slice(s, func(i, j int) bool { return s[i] < s[j] })\n", "\tsort.Slice(s, func(a, b int) bool { return s[b] > s[a] })\n")),
+ B("c18-benign-half-var", "C18", (MEDF, "\t\tmedian = s[l/2]\n", "\t\th := (l - 1) / 2\n\t\tmedian = s[h]\n")),
 ]
